@@ -361,3 +361,22 @@ def fourier_pointwise(ctx, dim):
         ph = sum(g._modes[d, j] * pos[d, 0] for d in range(dim))
         acc = acc + g._spectrum_factor[j] * (g._z_1[j] * m.cos(ph) + g._z_2[j] * m.sin(ph))
     ctx.ensure("value", ctx.eq(out[0], acc))
+
+
+@contract(P, "RandMeth.update[model+seed]/equals-fresh-generator", params={"dim": [1, 2], "gen": ["RandMeth", "Fourier"]},
+          functions=FN_RM + FN_F, nsamples=1, search=20)
+def update_model_and_seed(ctx, dim, gen):
+    """a changed model AND a new seed in one update (what SRF.__call__(pos, seed=...) does after an
+    in-place model change)"""
+    if gen == "RandMeth":
+        mod = sym_model(ctx, dim)
+        s = ctx.integer("seed", lo=1, hi=1000)
+        g = _q(RandMeth, mod, mode_no=2, seed=s)
+    else:
+        mod, s, per, g = sym_fourier(ctx, dim)
+    s2 = ctx.integer("seed2", lo=1001, hi=2000)
+    mod2, x = _changed_model(ctx, mod, "len_scale", dim, "beyond")
+    g.update(mod2, s2)
+    fresh = _q(RandMeth, mod2, mode_no=2, seed=s2) if gen == "RandMeth" else \
+        _q(Fourier, mod2, period=per, mode_no=[2] * dim, seed=s2)
+    ctx.ensure("state=fresh(new-seed,new-model)", views_equal(ctx, gen_view(g), gen_view(fresh)))
